@@ -74,6 +74,16 @@ class RealAPI:
         return pdt.transfer_col_references(table, ref_source)
 
     @staticmethod
+    def expr_table(tbl, expr):
+        """the one-column table that ColExpr.export synthesises for `expr` (the real
+        get_expr_as_table; `tbl` is only used by REF), column renamed to 'x'"""
+        from pydiverse.transform._internal.tree.col_expr import get_expr_as_table
+
+        r = get_expr_as_table(expr)
+        (only,) = r >> X.columns()
+        return r >> X.rename({only: "x"}) if only != "x" else r
+
+    @staticmethod
     def collect(tbl, **kw):
         """the real collect().  While artefacts are being built (SYMBOLIC_BUILD) the
         natively materialised frame is swapped for a uniquely tagged dummy frame and the
